@@ -11,7 +11,7 @@ Open Scope string_scope.
 Definition code_facts : Prop :=
   (* Txn.exec, CBegin: RLock for read-only, Lock for read-write, acquired before the
      transaction is handed out (the step is enabled only when the lock allows the mode) *)
-  tx_Begin = ["if-readonly"; "else"; "fi"; "if-readonly"; "txLock.RLock"; "else"; "txLock.Lock"; "fi"; "return tx"] /\
+  tx_Begin = ["if-readonly"; "txLock.RLock"; "else"; "txLock.Lock"; "fi"; "return tx"] /\
   (* Txn.spec_step, CGet: closed check, then the private buffer (a buffered delete reads as
      not found), then storage *)
   tx_Get = ["active.Load"; "return ErrTransactionClosed"; "buffer.Get"; "return ErrKeyNotFound"; "storage.Get"] /\
